@@ -94,15 +94,23 @@ def conj(parts):
     return ' && '.join(f'({p})' for p in parts)
 
 
+STATE_TYPE = ['']      # ' : <Schema> α' while rendering a schema none of whose fields mentions α (Lean cannot infer α otherwise)
+
+
+def phantom(schema):
+    return not any('α' in LEAN_TY[t] for t in schema.fields.values())
+
+
 def render(n, ind, want):
     pad = ' ' * ind
     if isinstance(n, End):
         return 's' if want == 'state' else 'true'
     if isinstance(n, Let):
         tail = render(n.rest, ind, want)
+        ann = STATE_TYPE[0] if n.var == 's' else ''
         if want == 'state':
-            return f'let {n.var} := {n.val}\n{pad}{tail}'
-        body = 'true' if tail == 'true' else f'let {n.var} := {n.val}\n{pad}{tail}'
+            return f'let {n.var}{ann} := {n.val}\n{pad}{tail}'
+        body = 'true' if tail == 'true' else f'let {n.var}{ann} := {n.val}\n{pad}{tail}'
         return conj(list(n.checks) + [body])
     if isinstance(n, Ite):
         a, b = render(n.a, ind + 4, want), render(n.b, ind + 4, want)
@@ -112,7 +120,7 @@ def render(n, ind, want):
         return conj(list(n.checks) + [body])
     if isinstance(n, Join):
         a, b = render(n.a, ind + 4, 'state'), render(n.b, ind + 4, 'state')
-        joined = f'let s := if {n.cond} then\n{pad}    {a}\n{pad}  else\n{pad}    {b}'
+        joined = f'let s{STATE_TYPE[0]} := if {n.cond} then\n{pad}    {a}\n{pad}  else\n{pad}    {b}'
         tail = render(n.rest, ind, want)
         if want == 'state':
             return f'{joined}\n{pad}{tail}'
@@ -152,7 +160,7 @@ class ETr:
     """
 
     def __init__(self, schema, params=None, ext=None, draw=None, keys=(), methods=None, effects=(), loops=(),
-                 ignore_calls=('print', 'self.dprint'), key_exprs=(), draws=None, strings=None, consts=None):
+                 ignore_calls=('print', 'self.dprint'), key_exprs=(), draws=None, strings=None, consts=None, views=None):
         self.schema = schema
         self.scope = dict(params or {})          # local/param name -> type
         self.ext = dict(ext or {})
@@ -162,6 +170,7 @@ class ETr:
         self.drawn = set()                        # draws consumed on the current path
         self.strings = dict(strings or {})        # string literal -> int code (e.g. colours)
         self.consts = dict(consts or {})          # python expression text -> literal (class constants such as `self.MIN_QUANTUM`)
+        self.views = dict(views or {})            # python expression text (read or assigned) -> schema field that stands for it
         self.yield_index = {}                     # id(yield statement) -> number (source order), set by `emit_generator`
         self.after = {}                           # yield number -> the statements that follow it (its continuation)
         self.poison_at = {}                       # yield number -> locals bound when it suspends (stale afterwards)
@@ -243,6 +252,10 @@ class ETr:
             return t, ty, []
         if key in self.consts:
             return self.const(e, self.consts[key])
+        if key in self.views:
+            f = self.views[key]
+            ty = self.schema.fields[f]
+            return f's.{f}', ('bool' if ty == 'truthy' else ty), []
         if key in self.draws:
             if key in self.drawn:
                 fail(e, f'a second `{key}` on one path (the model hands out one such input per burst)')
@@ -324,6 +337,9 @@ class ETr:
                 t, ty, ch = self.expr(e.left)
                 if ty in NUMERIC:      # narrowed already, or never None
                     return ('False' if op is ast.Is else 'True'), 'prop', ch
+                if ty == 'bool' and isinstance(e.left, ast.Attribute) and self.schema.fields.get(e.left.attr) == 'truthy':
+                    # an object field consulted only through its presence
+                    return (f'({t} = false)' if op is ast.Is else f'({t} = true)'), 'prop', ch
                 if ty not in ('optint', 'optnum'):
                     fail(e, f'`is None` on a value of type {ty}')
                 return (f'({t}.isNone = true)' if op is ast.Is else f'({t}.isSome = true)'), 'prop', ch
@@ -654,6 +670,8 @@ class ETr:
             field = tgt.value.attr
             if not str(self.schema.fields.get(field, '')).startswith('dict'):
                 fail(st, f'self.{field}[…] is not a per-class dict field of the schema')
+        if key in self.views:
+            field = self.views[key]
         if field is not None:
             want = self.schema.fields.get(field)
             if want is None:
@@ -802,8 +820,10 @@ def emit(leanname, schema, params, tr, stmts, origin, cls='Num'):
     saved = tr.save()
     ir = tr.block(stmts)
     tr.restore(saved)
+    STATE_TYPE[0] = f' : {schema.name} α' if phantom(schema) else ''
     state = render(ir, 2, 'state')
     safe = render(ir, 2, 'safe')
+    STATE_TYPE[0] = ''
     return (f'/-- generated from {origin} -/\n'
             f'def {leanname} {{α : Type}} [{cls} α] (s : {schema.name} α){ps} : {schema.name} α :=\n  {state}\n\n'
             f'/-- `true` iff the executed path of `{leanname}` divides by zero nowhere -/\n'
